@@ -98,3 +98,37 @@ func vH_C19_rollup_pass0() { vRollUpPass(0) }
 func vH_C19_rollup_pass1() { vRollUpPass(1) }
 func vH_C19_rollup_pass2() { vRollUpPass(2) }
 func vH_C19_rollup_pass3() { vRollUpPass(3) }
+
+// Focused order check: two (or three) un-rolled entries, first roll-up pass,
+// clock arbitrary and non-decreasing at every reading inside the pass.
+func vOrderedNoRollUp(k int) {
+	var hist []*pb.History
+	var prev int64
+	for i := 0; i < k; i++ {
+		t, d := vNondetI64("t"), vNondetI64("delta")
+		vAssume(t >= 1577836800000 && t <= 4102444800000 && t >= prev && d > 0 && d <= 1<<40)
+		prev = t
+		l := pb.RollUpLabel_NO_ROLL_UP
+		hist = append(hist, &pb.History{TimeUnixMilli: &t, Delta: &d, RollUp: &l})
+	}
+	before := vSum(hist)
+	c := &Counter{name: "c", timeSeries: true, history: hist, value: before}
+	c.doRollUp(pb.RollUpLabel_NO_ROLL_UP, pb.RollUpLabel_ROLL_UP_TO_SECOND, rollUpToSecond, time.Second)
+	vAssert(vSum(c.history) == before, "compaction preserves the total")
+	var last int64
+	for i, e := range c.history {
+		if i > 0 {
+			vAssert(e.GetTimeUnixMilli() >= last, "compaction never disorders the history in time")
+		}
+		last = e.GetTimeUnixMilli()
+	}
+	// a window never reports more than the total
+	t1 := time.UnixMilli(vNondetI64("w1"))
+	t2 := time.UnixMilli(vNondetI64("w2"))
+	if !t2.Before(t1) {
+		vAssert(c.DeltaBetween(t1, t2) <= before, "a window never reports more traffic than the total")
+	}
+}
+
+func vH_C19_rollup_order2() { vOrderedNoRollUp(2) }
+func vH_C19_rollup_order3() { vOrderedNoRollUp(3) }
